@@ -343,45 +343,92 @@ func ruleSIB3(w *World) []Ob {
 	l := &obs{rule: "SIB-3"}
 	d := w.D()
 	l.cfg = "D"
-	// (a) printers that write the row directly
+	// (a) row writers: every library function that writes a string built from a node's name to a writer
+	// it was handed must write exactly the row term; the two text printers must reach such a writer
+	rowWriters := map[*ssa.Function]bool{}
+	for _, fn := range libFuncs(d) {
+		var cur *ssa.Parameter
+		for _, prm := range fn.Params {
+			if isNodePtr(prm.Type()) && cur == nil {
+				cur = prm
+			}
+		}
+		if cur == nil {
+			continue
+		}
+		allInstrs(fn, func(in ssa.Instruction) {
+			c, ok := in.(*ssa.Call)
+			if !ok {
+				return
+			}
+			f := c.Common().StaticCallee()
+			if f == nil || d.InModule(f) || classifyExternal(f) != EffWriteGiven || len(c.Common().Args) < 2 {
+				return
+			}
+			var rowv ssa.Value
+			for _, a := range c.Common().Args[1:] {
+				if elems, ok := variadicElems(a); ok && len(elems) == 1 {
+					rowv = elems[0]
+				} else if b, ok := a.Type().Underlying().(*types.Basic); ok && b.Info()&types.IsString != 0 {
+					rowv = a
+				}
+			}
+			if rowv == nil {
+				return
+			}
+			ev := newCaseEval(d, cur)
+			cs := ev.cases(rowv, 0)
+			mentions := false
+			for _, cc := range cs {
+				if strings.Contains(cc.term, "name(n)") {
+					mentions = true
+				}
+			}
+			if !mentions {
+				return
+			}
+			groups := byAtom(cs, "isRoot(n)")
+			var problems []string
+			if len(groups["true"]) != 1 || groups["true"][0] != wantRootLine {
+				problems = append(problems, fmt.Sprintf("root line is %v, expected %s", groups["true"], wantRootLine))
+			}
+			if len(groups["false"]) != 1 || groups["false"][0] != wantChildLine {
+				problems = append(problems, fmt.Sprintf("non-root line is %v, expected %s", groups["false"], wantChildLine))
+			}
+			if len(groups["*"]) > 0 {
+				problems = append(problems, fmt.Sprintf("a line %v is written regardless of isRoot", groups["*"]))
+			}
+			name := d.FuncID(fn)
+			if len(problems) > 0 {
+				l.bad(name, "row written per node", d.InstrPos(c), strings.Join(problems, "; "), "row")
+			} else {
+				rowWriters[fn] = true
+				l.ok(name, "row written per node", d.InstrPos(c), "isRoot ? name+\"\\n\" : branch+\" \"+name+\"\\n\"", true, "row")
+			}
+		})
+	}
 	for _, name := range []string{"(*gtree.defaultSpreaderSimple).spreadBranch", "(*gtree.defaultGrowSpreaderSimple).assembleAndPrint"} {
 		fn := d.Func(name)
 		if fn == nil {
-			l.undecided(name, "row written per node", "-", "printer not found", "row")
+			l.undecided(name, "printer reaches a row writer", "-", "printer not found", "row")
 			continue
 		}
-		var sink *ssa.Call
+		reaches := rowWriters[fn]
 		allInstrs(fn, func(in ssa.Instruction) {
 			if c, ok := in.(*ssa.Call); ok {
-				if f := c.Common().StaticCallee(); f != nil && !d.InModule(f) && classifyExternal(f) == EffWriteGiven {
-					sink = c
+				if f := c.Common().StaticCallee(); f != nil && rowWriters[f] && f != fn {
+					for _, a := range c.Common().Args {
+						if prm, ok := resolve(a).(*ssa.Parameter); ok && isNodePtr(prm.Type()) && prm.Parent() == fn {
+							reaches = true
+						}
+					}
 				}
 			}
 		})
-		if sink == nil {
-			l.bad(name, "row written per node", d.Pos(fn.Pos()), "the printer no longer writes to its writer", "row")
-			continue
-		}
-		var rowv ssa.Value
-		for _, a := range sink.Common().Args[1:] {
-			if elems, ok := variadicElems(a); ok && len(elems) == 1 {
-				rowv = elems[0]
-			} else if b, ok := a.Type().Underlying().(*types.Basic); ok && b.Info()&types.IsString != 0 {
-				rowv = a
-			}
-		}
-		if rowv == nil {
-			l.undecided(name, "row written per node", d.InstrPos(sink), "the written value is not a single string", "row")
-			continue
-		}
-		cases, why := rowCases(d, rowv, sink)
-		if why == "" {
-			why = checkRow(cases, "name(n)", true)
-		}
-		if why != "" {
-			l.bad(name, "row written per node", d.InstrPos(sink), why, "row")
+		if reaches {
+			l.ok(name, "printer reaches a row writer", d.Pos(fn.Pos()), "the node's row is written by a function whose written term was checked", true, "row")
 		} else {
-			l.ok(name, "row written per node", d.InstrPos(sink), "isRoot ? name+\"\\n\" : branch+\" \"+name+\"\\n\"", true, "row")
+			l.bad(name, "printer reaches a row writer", d.Pos(fn.Pos()), "the printer neither writes the row itself nor hands its node to a function that does", "row")
 		}
 	}
 	// (b) colourising printer: initial value of the accumulated string
@@ -443,33 +490,36 @@ func ruleSIB3(w *World) []Ob {
 			continue
 		}
 		found := false
+		scan := []*ssa.Function{fn}
 		allInstrs(fn, func(in ssa.Instruction) {
-			c, ok := in.(*ssa.Call)
-			if !ok || calleeFullName(c.Common()) != "fmt.Sprintf" {
-				return
-			}
-			found = true
-			t := &termer{p: p}
-			got, _ := t.sprintf(c, 0)
-			var recv, root string
-			// normalise receiver and root names
-			if len(fn.Params) > 0 {
-				recv = fn.Params[0].Name()
-			}
-			_ = recv
-			_ = root
-			got = normaliseReport(got)
-			want := `cat(spreadBranch(R,ROOT),"\n",summary(R),"\n")`
-			if spec.summary == "" {
-				// the tinywasm summary carries its own trailing newline
-				want = `cat(spreadBranch(R,ROOT),"\n",summary(R))`
-			}
-			if got == want {
-				l.ok(spec.name, "dry-run report per root", p.InstrPos(c), got, true, "report")
-			} else {
-				l.bad(spec.name, "dry-run report per root", p.InstrPos(c), "the per-root report is "+got+", expected "+want, "report")
+			if c, ok := in.(*ssa.Call); ok {
+				if f := c.Common().StaticCallee(); f != nil && p.InModule(f) && f != fn && strings.Contains(recvTypeName(f), "olorize") && f.Name() != "spreadBranch" && f.Name() != "summary" && f.Name() != "write" {
+					scan = append(scan, f)
+				}
 			}
 		})
+		for _, sf := range scan {
+			allInstrs(sf, func(in ssa.Instruction) {
+				c, ok := in.(*ssa.Call)
+				if !ok || calleeFullName(c.Common()) != "fmt.Sprintf" {
+					return
+				}
+				found = true
+				t := &termer{p: p}
+				got, _ := t.sprintf(c, 0)
+				got = normaliseReport(got)
+				want := `cat(spreadBranch(R,ROOT),"\n",summary(R),"\n")`
+				if spec.summary == "" {
+					// the tinywasm summary carries its own trailing newline
+					want = `cat(spreadBranch(R,ROOT),"\n",summary(R))`
+				}
+				if got == want {
+					l.ok(spec.name, "dry-run report per root", p.InstrPos(c), got, true, "report")
+				} else {
+					l.bad(spec.name, "dry-run report per root", p.InstrPos(c), "the per-root report is "+got+", expected "+want, "report")
+				}
+			})
+		}
 		if !found {
 			l.bad(spec.name, "dry-run report per root", p.Pos(fn.Pos()), "no fmt.Sprintf assembles tree text and summary", "report")
 		}
@@ -780,63 +830,53 @@ func ruleC01SEL(w *World) []Ob {
 				}
 				subject = nodes[1]
 			}
-			got := map[string]string{}
 			var problems []string
+			ev := newCaseEval(p, cur)
+			atomName := "isLastOfHierarchy(" + ev.termOf(subject) + ")"
+			var all []vcase
+			nSites := 0
 			allInstrs(fn, func(in ssa.Instruction) {
 				c, ok := nodeMethodCall(in, "setBranch")
 				if !ok {
 					return
 				}
+				nSites++
 				if !sameVar(c.Common().Args[0], cur) {
 					problems = append(problems, "setBranch is applied to another node than the one being assembled")
 					return
 				}
-				t := &termer{p: p, node: cur}
 				elems, ok := variadicElems(c.Common().Args[1])
 				if !ok {
 					problems = append(problems, "setBranch arguments not recognised")
 					return
 				}
-				var parts []string
-				for _, e := range elems {
-					parts = append(parts, t.term(e, 0))
-				}
-				side := "?"
-				for _, g := range guardsOf(c.Block()) {
-					cc, pol := flattenCond(g.Cond, g.Pol)
-					call, ok := cc.(*ssa.Call)
-					if !ok || call.Common().StaticCallee() == nil || call.Common().StaticCallee().Name() != "isLastOfHierarchy" {
-						continue
-					}
-					if !sameVar(call.Common().Args[0], subject) {
-						problems = append(problems, "the last-child test is applied to "+describeValue(call.Common().Args[0])+" instead of "+subject.Name())
-						continue
-					}
-					side = fmt.Sprint(pol)
-				}
-				got[side] = strings.Join(parts, ",")
+				all = append(all, ev.argCases(elems, ev.guardConds(c.Block()))...)
 			})
+			groups := byAtom(all, atomName)
 			recvName := fn.Params[0].Name()
 			low := strings.ToLower(kind)
 			var want map[string]string
 			if kind == "Directly" {
 				want = map[string]string{
-					"true":  "branch(n)," + low + "(&lastNodeFormat(" + recvName + "))",
-					"false": "branch(n)," + low + "(&intermedialNodeFormat(" + recvName + "))",
+					"true":  "branch(n)," + low + "(lastNodeFormat(" + recvName + "))",
+					"false": "branch(n)," + low + "(intermedialNodeFormat(" + recvName + "))",
 				}
 			} else {
 				want = map[string]string{
-					"true":  low + "(&lastNodeFormat(" + recvName + ")),branch(n)",
-					"false": low + "(&intermedialNodeFormat(" + recvName + ")),branch(n)",
+					"true":  low + "(lastNodeFormat(" + recvName + ")),branch(n)",
+					"false": low + "(intermedialNodeFormat(" + recvName + ")),branch(n)",
 				}
 			}
 			for k, v := range want {
-				if got[k] != v {
-					problems = append(problems, fmt.Sprintf("when isLastOfHierarchy(%s)=%s the branch becomes [%s], expected [%s]", subject.Name(), k, got[k], v))
+				if len(groups[k]) != 1 || groups[k][0] != v {
+					problems = append(problems, fmt.Sprintf("when %s=%s the branch becomes %v, expected [%s]", atomName, k, groups[k], v))
 				}
 			}
-			if len(got) != 2 {
-				problems = append(problems, fmt.Sprintf("%d setBranch sites, expected one per side of the last-child test", len(got)))
+			if len(groups["*"]) > 0 {
+				problems = append(problems, fmt.Sprintf("a branch value %v does not depend on %s at all", groups["*"], atomName))
+			}
+			if nSites == 0 {
+				problems = append(problems, "no setBranch call")
 			}
 			sort.Strings(problems)
 			if len(problems) > 0 {
@@ -851,13 +891,20 @@ func ruleC01SEL(w *World) []Ob {
 		}
 		// the walk-up loop in assembleBranch
 		name := "(*gtree." + spec.recv + ").assembleBranch"
-		if fn := p.Func(name); fn != nil {
-			var call *ssa.Call
-			allInstrs(fn, func(in ssa.Instruction) {
-				if c, ok := in.(*ssa.Call); ok && c.Common().StaticCallee() != nil && c.Common().StaticCallee().Name() == "assembleBranchIndirectly" {
-					call = c
+		var fn *ssa.Function
+		var call *ssa.Call
+		for _, f := range libFuncs(p) {
+			if recvTypeName(f) != spec.recv {
+				continue
+			}
+			allInstrs(f, func(in ssa.Instruction) {
+				if c, ok := in.(*ssa.Call); ok && c.Common().StaticCallee() != nil && c.Common().StaticCallee().Name() == "assembleBranchIndirectly" && recvTypeName(c.Common().StaticCallee()) == spec.recv {
+					call, fn = c, f
 				}
 			})
+		}
+		if fn != nil {
+			name = p.FuncID(fn)
 			construct := "ancestor walk"
 			if call == nil {
 				l.bad(name, construct, p.Pos(fn.Pos()), "assembleBranch no longer calls assembleBranchIndirectly for the ancestors", "walkup")
@@ -1062,7 +1109,17 @@ func ruleC01NAME(w *World) []Ob {
 	}
 	// 2. Parse: text stored into Markdown on the list-row path
 	nList := 0
+	parseFam := []*ssa.Function{parse}
 	allInstrs(parse, func(in ssa.Instruction) {
+		if c, ok := in.(*ssa.Call); ok {
+			if f := c.Common().StaticCallee(); f != nil && p.InModule(f) && recvTypeName(f) == "Parser" && f != sep && f.Name() != "isBlank" && f.Name() != "calculateHierarchy" {
+				parseFam = append(parseFam, f)
+			}
+		}
+	})
+	for _, pf := range parseFam {
+	pf := pf
+	allInstrs(pf, func(in ssa.Instruction) {
 		st, ok := in.(*ssa.Store)
 		if !ok {
 			return
@@ -1081,6 +1138,19 @@ func ruleC01NAME(w *World) []Ob {
 			if c, ok := cc.(*ssa.Call); ok && pol && calleeFullName(c.Common()) == "strings.HasPrefix" {
 				if s, _ := constString(c.Common().Args[1]); s == "#" {
 					heading = true
+				}
+			}
+		}
+		if pf != parse {
+			// a helper: it is the heading helper if Parse calls it only under HasPrefix(row, "#")
+			for _, ci := range p.Callers(pf) {
+				for _, g := range guardsOf(ci.(ssa.Instruction).Block()) {
+					cc, pol := flattenCond(g.Cond, g.Pol)
+					if c, ok := cc.(*ssa.Call); ok && pol && calleeFullName(c.Common()) == "strings.HasPrefix" {
+						if s, _ := constString(c.Common().Args[1]); s == "#" {
+							heading = true
+						}
+					}
 				}
 			}
 		}
@@ -1123,6 +1193,7 @@ func ruleC01NAME(w *World) []Ob {
 			}
 		}
 	})
+	}
 	if nList == 0 {
 		l.bad(p.FuncID(parse), "list row text", p.Pos(parse.Pos()), "no store of the item text on the list-row path", "name")
 	}
@@ -1366,6 +1437,80 @@ func ruleSIB5(w *World) []Ob {
 			}
 		}
 		add("a root starts a new stack and is recorded", why, "isRoot ⇒ newStack(), push(root), root recorded")
+		// a helper that receives the open stack and the node (attachToOpenRoot(stack, node, row) error):
+		// its nil-stack test and its dfs call count for this loop if the helper's error ends the loop
+		var helper *ssa.Call
+		allInstrs(fn, func(in ssa.Instruction) {
+			c, ok := in.(*ssa.Call)
+			if !ok || c.Common().StaticCallee() == nil || !p.InModule(c.Common().StaticCallee()) {
+				return
+			}
+			hasNode, hasStack := false, false
+			for _, a := range c.Common().Args {
+				if sameVar(a, node) {
+					hasNode = true
+				}
+				if pt, ok := a.Type().(*types.Pointer); ok && isNamed(pt.Elem(), modulePath, "stack") {
+					hasStack = true
+				}
+			}
+			if hasNode && hasStack && c.Common().StaticCallee().Name() != "dfs" && isErrorType(c.Type()) {
+				helper = c
+			}
+		})
+		if helper != nil {
+			hf := helper.Common().StaticCallee()
+			why = ""
+			var hStack, hNode *ssa.Parameter
+			for i, a := range helper.Common().Args {
+				if i >= len(hf.Params) {
+					continue
+				}
+				if sameVar(a, node) {
+					hNode = hf.Params[i]
+				}
+				if pt, ok := a.Type().(*types.Pointer); ok && isNamed(pt.Elem(), modulePath, "stack") {
+					hStack = hf.Params[i]
+					if ld, ok := isLoad(stripConv(a)); ok {
+						if st := initStore(ld); st != nil && nc.nonNil(st.Val, st, 0) {
+							why = "the stack handed to " + hf.Name() + " is created before the first root is seen, so its nil test can never fire"
+						}
+						if stackCell != nil && cellKey(ld) != cellKey(stackCell) {
+							why = hf.Name() + " is given a different stack than the one created for the current root"
+						}
+					}
+				}
+			}
+			nilSentinel, dfsOK := false, false
+			if hStack != nil && hNode != nil {
+				allInstrs(hf, func(in ssa.Instruction) {
+					switch x := in.(type) {
+					case *ssa.Return:
+						if globalName(rr(x)[0]) == "errNilStack" && guardedNil(hStack, x) {
+							nilSentinel = true
+						}
+					case *ssa.Call:
+						if x.Common().StaticCallee() != nil && x.Common().StaticCallee().Name() == "dfs" && sameVar(x.Common().Args[0], hStack) && sameVar(x.Common().Args[1], hNode) {
+							if failureLeadsToErrorExit(p, nc, x) == "" {
+								dfsOK = true
+							}
+						}
+					}
+				})
+			}
+			if why == "" && !nilSentinel {
+				why = hf.Name() + " does not return errNilStack when the stack is nil"
+			}
+			if why == "" && !dfsOK {
+				why = hf.Name() + " does not attach the node with dfs and report a failed attach"
+			}
+			if why == "" {
+				why = errorExit(p, nc, helper, scan.Block())
+			}
+			add("an item before the first root is an error", why, "nil-stack test and attach in helper "+hf.Name()+", whose error ends the operation")
+			add("other items are attached to the current root's stack", why, "attach in helper "+hf.Name())
+		}
+		if helper == nil {
 		// (e) nil-stack test live, yields errNilStack
 		why = ""
 		var stackLoadTested ssa.Value
@@ -1446,6 +1591,7 @@ func ruleSIB5(w *World) []Ob {
 			}
 		}
 		add("other items are attached to the current root's stack", why, "stack.dfs(node) on the stack created at the last root")
+		}
 		// (g) delivery
 		why = ""
 		if appendRoots {
@@ -1471,6 +1617,12 @@ func ruleSIB5(w *World) []Ob {
 							v = st.Send
 						}
 					}
+				case *ssa.Return:
+					for _, rv := range rr(x) {
+						if isNodePtr(rv.Type()) && !isNilConst(rv) {
+							v = rv
+						}
+					}
 				}
 				if v == nil {
 					return
@@ -1493,8 +1645,17 @@ func ruleSIB5(w *World) []Ob {
 				}
 			}
 			perBlock := false
-			if c, ok := resolve(scan.Common().Args[0]).(*ssa.Call); ok && calleeFullName(c.Common()) == "bufio.NewScanner" && inLoop(c) {
-				perBlock = true // one root block per scanner (the splitter guarantees it)
+			if c, ok := resolve(scan.Common().Args[0]).(*ssa.Call); ok && calleeFullName(c.Common()) == "bufio.NewScanner" {
+				if inLoop(c) {
+					perBlock = true // one root block per scanner (the splitter guarantees it)
+				}
+				if rd, ok := c.Common().Args[0].(*ssa.MakeInterface); ok {
+					if sr, ok := rd.X.(*ssa.Call); ok && calleeFullName(sr.Common()) == "strings.NewReader" {
+						if _, isPrm := sr.Common().Args[0].(*ssa.Parameter); isPrm {
+							perBlock = true // a function that parses one block handed to it as a string
+						}
+					}
+				}
 			}
 			switch {
 			case !after:
